@@ -846,6 +846,10 @@ func (st *AclState) applyRequestRemove(ch *aclrecordproto.AclAccountRequestRemov
 }
 
 func (st *AclState) applyAccountRemove(ch *aclrecordproto.AclAccountRemove, record *AclRecord) error {
+	if ch.ReadKeyChange == nil {
+		// a removal always rotates the read key; the field is optional on the wire
+		return ErrIncorrectReadKey
+	}
 	err := st.contentValidator.ValidateAccountRemove(ch, record.Identity)
 	if err != nil {
 		return err
